@@ -18,5 +18,6 @@ func main() {
 	hx.Register("c07", c07Main)
 	hx.Register("c07c", c07cMain)
 	hx.Register("c07h", c07hMain)
+	hx.Register("c04seq", c04seqMain)
 	hx.Main()
 }
